@@ -367,35 +367,7 @@ func runC15(c *mon.Ctx) {
 		for _, cde := range mapped {
 			byGID[info.CodeToGID[cde]] = cde
 		}
-		var s []rune
-		for n := r.IntN(12); n > 0; n-- {
-			switch r.IntN(5) {
-			case 0:
-				s = append(s, rune(0x2460+r.IntN(20))) // most likely unmapped
-			default:
-				s = append(s, mapped[r.IntN(len(mapped))])
-			}
-		}
-		if f.Gsub != nil && r.IntN(2) == 0 {
-			for _, l := range f.Gsub.LookupList {
-				for _, st := range l.Subtables {
-					if s4, ok := st.(*gtab.Gsub4_1); ok {
-						for first, idx := range s4.Cov {
-							lig := s4.Repl[idx][0]
-							if c0, ok := byGID[first]; ok {
-								s = append(s, c0)
-								for _, g := range lig.In {
-									if cc, ok := byGID[g]; ok {
-										s = append(s, cc)
-									}
-								}
-							}
-							break
-						}
-					}
-				}
-			}
-		}
+		var markChars []rune
 		// some fonts classify glyphs as marks: marks do not get an advance width
 		if r.IntN(3) == 0 {
 			gc := classdef.Table{}
@@ -409,6 +381,63 @@ func runC15(c *mon.Ctx) {
 			}
 			f.Gdef = &gdef.Table{GlyphClass: gc}
 			k.Class("layout:gdef-marks")
+			for g, cde := range byGID {
+				if gc[g] == gdef.GlyphClassMark {
+					markChars = append(markChars, cde)
+				}
+			}
+			sort.Slice(markChars, func(i, j int) bool { return markChars[i] < markChars[j] })
+			// ligatures that skip marks: the skipped glyph stays in the sequence
+			// (with its own text) behind the ligature
+			if f.Gsub != nil && r.IntN(2) == 0 {
+				for _, l := range f.Gsub.LookupList {
+					if l.Meta.LookupType == 4 {
+						l.Meta.LookupFlags |= gtab.IgnoreMarks
+						if len(markChars) > 0 {
+							k.Class("layout:ligature-ignores-marks")
+						}
+					}
+				}
+			}
+		}
+		var s []rune
+		for n := r.IntN(12); n > 0; n-- {
+			switch r.IntN(5) {
+			case 0:
+				s = append(s, rune(0x2460+r.IntN(20))) // most likely unmapped
+			default:
+				s = append(s, mapped[r.IntN(len(mapped))])
+			}
+		}
+		if f.Gsub != nil && r.IntN(2) == 0 {
+			for _, l := range f.Gsub.LookupList {
+				for _, st := range l.Subtables {
+					if s4, ok := st.(*gtab.Gsub4_1); ok {
+						// the covered glyph with the smallest id (fixed order)
+						first, idx := glyph.ID(0), -1
+						for g, i := range s4.Cov {
+							if idx < 0 || g < first {
+								first, idx = g, i
+							}
+						}
+						if idx < 0 || idx >= len(s4.Repl) || len(s4.Repl[idx]) == 0 {
+							continue
+						}
+						lig := s4.Repl[idx][0]
+						if c0, ok := byGID[first]; ok {
+							s = append(s, c0)
+							for _, g := range lig.In {
+								if len(markChars) > 0 && r.IntN(2) == 0 {
+									s = append(s, markChars[r.IntN(len(markChars))])
+								}
+								if cc, ok := byGID[g]; ok {
+									s = append(s, cc)
+								}
+							}
+						}
+					}
+				}
+			}
 		}
 		var gsubOn, gposOn map[string]bool
 		switch r.IntN(4) {
@@ -775,7 +804,7 @@ func runC15(c *mon.Ctx) {
 	})
 	req := []string{"select:exact-language", "select:non-matching-language,>=2-systems", "layout:gsub-effect", "layout:gpos-effect", "layout:no-rule-applies",
 		"kern:glyf", "kern:cff", "kern-subtable:accumulate", "kern-subtable:minimum", "kern-subtable:override", "kern-subtable:ignored", "kern-subtable:>10920-pairs", "layout:gdef-marks", "layout:history-compared", "layout:second-layouter-flipped-switches", "fixed-pitch=true", "fixed-pitch=false",
-		"features:all-off", "features:explicit", "features:nil-defaults", "layout:cmap=mac", "layout:cmap=12"}
+		"features:all-off", "features:explicit", "features:nil-defaults", "layout:cmap=mac", "layout:cmap=12", "layout:ligature-ignores-marks"}
 	for s := 0; s < 32; s++ {
 		req = append(req, fmt.Sprintf("ligature-subset=%d", s))
 	}
